@@ -1,9 +1,9 @@
 package eng
 
 import (
-	"go/types"
 	"go/ast"
 	"go/token"
+	"go/types"
 	"sort"
 	"strings"
 
